@@ -528,7 +528,9 @@ class OptionAlphabet:
                   # a literal '$' (quoted on the shell's command line): names
                   # that are and are not defined in the process environment
                   "$HOME/out.pdf", "plots_${HOME}/a.pdf", "cost_$5.txt",
-                  "$NO_SUCH_VARIABLE_X/y.zip", "~/tilde.json"]
+                  "$NO_SUCH_VARIABLE_X/y.zip", "~/tilde.json",
+                  # JSON punctuation / comment markers in a file name
+                  "plots/run[3,]/ape.pdf", "a,}b.zip", "x//y.png"]
     INT_VALUES = ["0", "1", "5", "500", "12", "1000", "+7", "007",
                   # not representable as a double
                   "9007199254740993", "123456789012345678"]
